@@ -65,7 +65,10 @@ def run(n, timeout=600):
             tdir = backups._temp_dir
             fbm.os.into = tdir + os.sep
             for i, fn in enumerate(names):
-                ok = backups.back_up_and_remove(fn)
+                try:
+                    ok = backups.back_up_and_remove(fn)
+                except Exception as x:      # noqa
+                    return 'BackupMoves', 'moving file %d aside raised %r' % (i, x), {}
                 if not ok or os.path.exists(fn):
                     return 'BackupMoves', 'file %d was not moved aside' % i, {}
             if len(log) != n:
